@@ -41,6 +41,14 @@ def literal_seq(t):
             break
     if t[0] == "agg" and t[1] in ("vec", "array"):
         return list(t[3])
+    if t[0] == "agg" and isinstance(t[2], str) and t[2].startswith("std::ops::Range::") and len(t[3]) == 2:
+        a, b = t[3]
+        if const_int(a) is not None and const_int(b) is not None and 0 <= const_int(b) - const_int(a) <= 64:
+            ty = a[4] if len(a) > 4 else None
+            return [("const", "int", v, None, ty) for v in range(const_int(a), const_int(b))]
+        co, k = linear(b)
+        if k == 1 and co == {strip_site(a): 1}:
+            return [a]          # x..x+1
     return None
 
 
@@ -241,15 +249,23 @@ def run(ctx):
                     cnt = src[3][1]
             shifted = None
             for x in walk(s_t):
-                if x[0] == "phi" and strip_site(x) == base[0]:
+                if x[0] in ("phi", "field") and strip_site(x) == base[0]:
                     shifted = x
             if cnt is None or shifted is None:
                 ok34 = False
                 why += " ; child index is not a 0..count range / base not loop-invariant"
             else:
                 # count = phi{1, 4^D} ; shifted = phi{s << 2D, s}
-                cl = [deep_resolve(ft, l, {}) for l in (leaves_under(ft, cnt, {}) if cnt[0] == "phi" else [cnt])]
-                sl = [deep_resolve(ft, l, {}) for l in (leaves_under(ft, shifted, {}) if shifted[0] == "phi" else [shifted])]
+                def alts(t_):
+                    # the alternatives of a value that is a join, or one component of a join of tuples
+                    if t_[0] == "phi":
+                        return leaves_under(ft, t_, {})
+                    if t_[0] == "field" and t_[1][0] == "phi" and str(t_[2]).isdigit():
+                        from ..terms import mk_field
+                        return [mk_field(l_, t_[2], int(t_[2])) for l_ in leaves_under(ft, t_[1], {}) if not (l_[0] == "unknown")]
+                    return [t_]
+                cl = [deep_resolve(ft, l, {}) for l in alts(cnt)]
+                sl = [deep_resolve(ft, l, {}) for l in alts(shifted)]
                 pw = [l for l in cl if l[0] == "call" and l[1].endswith("::pow")]
                 one = [l for l in cl if const_int(l) == 1]
                 sh = [l for l in sl if l[0] == "bin" and l[1] == "Shl"]
@@ -366,6 +382,11 @@ def run(ctx):
                     if d[0] == "bin" and d[1] == "Eq" and const_int(d[3]) == -1:
                         od = option_default(fpw, d[2])
                         if od is not None and od[0] == ("param", 2) and not (vals == [0] or 0 in vals):
+                            okw = True
+                    elif vals == [-1] and not other:
+                        # `match target { -1 => Ok(WORLD_CELL), .. }`: the switch is on the target itself
+                        od = option_default(fpw, d)
+                        if od is not None and od[0] == ("param", 2):
                             okw = True
                 run.inst("C07.T6", "world-cell-iff-target-minus-one", okw,
                          "cell_to_parent returns the world cell under %s (must be: requested target == -1)" % [fmt(d)[:50] for d, *_ in conds][:3], where(fpw.fn["span"]))
